@@ -527,8 +527,89 @@ Proof.
       change (ps_gecko sE) with (ps_gecko (close_if s1)). rewrite C7. exact Hgk.
     + rewrite Hre. reflexivity.
 Qed.
+
+(* ---- the skip-frames path (finished replays) ---- *)
+Lemma skipn_exact {A} (X Y : list A) n : length X = n -> skipn n (X ++ Y) = Y.
+Proof. intro H. rewrite skipn_app, H, Nat.sub_diag. rewrite skipn_all2 by lia. reflexivity. Qed.
+
+Lemma game_eq_skip s' (h : bool) :
+  ps_start s' = st -> ps_end s' = end_of r -> ps_frames s' = frames_new v ports -> ps_meta s' = None ->
+  ps_gecko s' = None -> ps_quirk s' = None ->
+  game_of_state (match r_meta r with Some m => set_meta s' m | None => s' end) (if h then Some (length (emit r)) else None)
+  = game_of {| o_skip := true; o_hash := h |} r st (end_of r).
+Proof.
+  intros H1 H2 H3 H4 H5 H6. unfold game_of_state, game_of. cbn [o_skip o_hash].
+  destruct (r_meta r); cbn [set_meta ps_start ps_end ps_frames ps_meta ps_gecko ps_quirk]; rewrite ?H1, ?H2, ?H3, ?H4, ?H5, ?H6; reflexivity.
+Qed.
+
+Lemma cl_new : (if vlt v 3 0 then closef L (frames_new v ports) else frames_new v ports) = frames_new v ports.
+Proof. destruct (vlt v 3 0); [|reflexivity]. apply closef_closed. apply finv_new. Qed.
+
+Theorem read_skipping h :
+  finished r = true ->
+  slp_read {| o_skip := true; o_hash := h |} (emit r)
+  = Ok (game_of {| o_skip := true; o_hash := h |} r st (end_of r), []).
+Proof.
+  intro Hfin.
+  destruct (wf_replay_inv r st Hwf Hst) as (_ & _ & _ & _ & _ & Hend & Hmeta & Hbound).
+  pose proof rawlen_eq as Hraw.
+  assert (Hb : exists b, end_blk r = Some b /\ exists X, Gb ++ Fb ++ emit_end r = X ++ ev Event_GameEnd ++ b /\
+                         length (Gb ++ Fb ++ emit_end r) = (length X + 1 + length b)%nat /\ (length b + 1 <= length (emit_end r))%nat).
+  { unfold finished, end_blk, emit_end in *. destruct (r_end r) as [|b|b]; [discriminate| |]; exists b; (split; [reflexivity|]).
+    - exists (Gb ++ Fb). rewrite <- !app_assoc. split; [reflexivity|]. rewrite !app_length. unfold ev. cbn [List.length]. lia.
+    - exists (Gb ++ Fb ++ ev Event_GameEnd ++ b). rewrite <- !app_assoc. split; [reflexivity|]. rewrite !app_length. unfold ev. cbn [List.length]. lia. }
+  destruct Hb as (b & Hb & X & HX & HlenX & Hle).
+  destruct (Hend b Hb) as [Hbl [e He]].
+  assert (Hlk : lookup_size (ps_sizes s0) Event_GameEnd = Some (nn (length b))).
+  { cbn [s0 ps_sizes]. unfold sizes, t. rewrite (lk_rev r st Hwf Hst), lk_end, Hb. reflexivity. }
+  assert (HGF : (nn (length (Gb ++ Fb ++ emit_end r)) = evs_len gevs + evs_len fevs + nn (length (emit_end r)))%N).
+  { rewrite !evs_len_bytes, gevs_bytes, fevs_bytes, !app_length. unfold nn. lia. }
+  rewrite emit_split at 1. rewrite slp_read_eq.
+  rewrite parse_header_emit by exact Hbound. cbn [bind].
+  rewrite parse_start_raw. cbn [bind]. rewrite <- emit_split.
+  unfold read_skip. cbn [o_skip]. rewrite Hlk.
+  replace (N.eqb rawlen 0 || (rawlen <? ps_bytes_read s0 + (1 + nn (length b)))%N) with false.
+  2:{ symmetry. apply orb_false_iff. cbn [s0 ps_bytes_read]. split; [apply N.eqb_neq|apply N.ltb_ge]; unfold nn, B0 in *; lia. }
+  cbn [bind].
+  set (skip := (rawlen - ps_bytes_read s0 - (1 + nn (length b)))%N).
+  assert (Hskip : N.to_nat skip = length X).
+  { unfold skip. cbn [s0 ps_bytes_read]. unfold nn in *. lia. }
+  assert (Hdrop : drop_upto skip (Gb ++ Fb ++ emit_end r ++ emit_meta (r_meta r) ++ [x7d])
+                  = ev Event_GameEnd ++ b ++ emit_meta (r_meta r) ++ [x7d]).
+  { replace (Gb ++ Fb ++ emit_end r ++ emit_meta (r_meta r) ++ [x7d])
+      with ((Gb ++ Fb ++ emit_end r) ++ emit_meta (r_meta r) ++ [x7d]) by (rewrite <- !app_assoc; reflexivity).
+    rewrite HX, <- !app_assoc.
+    unfold drop_upto. rewrite !app_length. unfold ev. cbn [List.length].
+    match goal with |- context [(?a <=? skip)%N] => destruct (N.leb_spec a skip) as [Hbad|_]; [lia|] end.
+    apply skipn_exact. symmetry. exact Hskip. }
+  rewrite Hdrop.
+  set (sS := add_bytes_read s0 skip).
+  rewrite (end_step _ rawlen sS b e _ Hlk He).
+  2:{ unfold sS, skip. cbn [add_bytes_read s0 ps_bytes_read]. unfold nn, B0 in *. lia. }
+  cbn [bind]. fold (close_if sS).
+  set (sE := add_bytes_read (set_end (close_if sS) e) (nn (length b) + 1)).
+  fold (close_if sE).
+  destruct (close_if_proj sS) as (C1 & C2 & C3 & C4 & C5 & C6 & C7 & C8 & C9 & C10).
+  destruct (close_if_proj sE) as (D1 & D2 & D3 & D4 & D5 & D6 & D7 & D8 & D9 & D10).
+  change (ver sS) with (ver s0) in C10, C9. rewrite ver_s0 in C10, C9.
+  change (ps_layout sS) with L in C10, C3. change (ps_frames sS) with (frames_new v ports) in C10. rewrite cl_new in C10.
+  change (ver sE) with (ver (close_if sS)) in D10. change (ps_layout sE) with (ps_layout (close_if sS)) in D10.
+  change (ps_frames sE) with (ps_frames (close_if sS)) in D10. rewrite C9, C3, C10, cl_new in D10.
+  rewrite read_dup_none.
+  2:{ rewrite D2. change (ps_bytes_read sE) with (ps_bytes_read (close_if sS) + (nn (length b) + 1))%N. rewrite C2.
+      unfold sS, skip. cbn [add_bytes_read s0 ps_bytes_read]. unfold nn, B0 in *. lia. }
+  cbn [bind]. rewrite (read_tail_emit _ _ _ _ Hmeta). cbn [o_hash]. f_equal. f_equal.
+  apply game_eq_skip; rewrite ?D4, ?D5, ?D6, ?D7, ?D8, ?D10; try reflexivity.
+  + change (ps_start sE) with (ps_start (close_if sS)). rewrite C4. reflexivity.
+  + change (ps_end sE) with (Some e). unfold end_of. rewrite Hb, He. reflexivity.
+  + change (ps_meta sE) with (ps_meta (close_if sS)). rewrite C6. reflexivity.
+  + change (ps_gecko sE) with (ps_gecko (close_if sS)). rewrite C7. reflexivity.
+  + change (ps_quirk sE) with (ps_quirk (close_if sS)). rewrite C8. reflexivity.
+Qed.
 End Read.
 
 Check read_full : forall r st, wf_replay r = true -> game_start (r_start r) = ROk st -> forall h,
   slp_read {| o_skip := false; o_hash := h |} (emit r) = Ok (game_of {| o_skip := false; o_hash := h |} r st (end_of r), []).
 Print Assumptions read_full.
+
+Print Assumptions read_skipping.
